@@ -62,15 +62,26 @@ pub fn convert_cntrl_flow(
             for case in match_cases {
                 if let NodeTy::Case { cond, body } = &case.node {
                     if let NodeTy::ExpressionType { expr, .. } = &cond.node {
+                        let pattern = convert_node(
+                            expr.as_ref(),
+                            imp,
+                            &state.is_last_must_be_ret(false).must_assign_to(None, None),
+                            ctx,
+                        )?;
+                        if !is_pattern(&pattern) {
+                            let msg = "Match case must be a literal, identifier, or tuple of these";
+                            return Err(Box::from(UnimplementedErr::new(cond, msg)));
+                        }
+
+                        let catch_all = matches!(pattern, Core::UnderScore | Core::Id { .. });
                         cases.push(Core::Case {
-                            expr: Box::from(convert_node(
-                                expr.as_ref(),
-                                imp,
-                                &state.is_last_must_be_ret(false).must_assign_to(None, None),
-                                ctx,
-                            )?),
+                            expr: Box::from(pattern),
                             body: Box::from(convert_node(body.as_ref(), imp, state, ctx)?),
-                        })
+                        });
+                        if catch_all {
+                            // Python rejects cases after a catch-all, these are unreachable
+                            break;
+                        }
                     }
                 }
             }
@@ -98,6 +109,24 @@ pub fn convert_cntrl_flow(
 fn is_valid_in_ternary(then: &ASTTy, el: &ASTTy) -> bool {
     !matches!(then.node, NodeTy::Block { .. } | NodeTy::Raise { .. })
         && !matches!(el.node, NodeTy::Block { .. } | NodeTy::Raise { .. })
+}
+
+/// True if Python accepts core as pattern of a case.
+fn is_pattern(core: &Core) -> bool {
+    match core {
+        Core::Int { .. }
+        | Core::Float { .. }
+        | Core::Str { .. }
+        | Core::Bool { .. }
+        | Core::None
+        | Core::Id { .. }
+        | Core::UnderScore => true,
+        Core::SubU { expr } => matches!(**expr, Core::Int { .. } | Core::Float { .. }),
+        Core::Tuple { elements } | Core::TupleLiteral { elements } | Core::List { elements } => {
+            elements.iter().all(is_pattern)
+        }
+        _ => false,
+    }
 }
 
 #[cfg(test)]
